@@ -115,9 +115,11 @@ Proof.
   change (gen_iter (fun v rho k' => exec_block O Prop (fun rho v0 => returns R rho (Some v0)) (fun _ => False)
                                       loop_body (update "excluded_shape" v rho) k')
                    (map vshape shapes) (mk (vctx shapes) c py cm None (qadd O py cm) S0)
-                   (fun rho => returns R rho (Some (lookup "clearance" rho)))).
+                   (fun rho => if flowing rho then returns R rho None
+                               else returns R rho (Some (lookup "clearance" rho)))).
   rewrite (qadd_eq _ HO).
-  rewrite loop_spec. rewrite lookup_clearance. reflexivity.
+  rewrite loop_spec. rewrite lookup_clearance.
+  replace (flowing _) with false by (destruct (fold_shape _ _ _); reflexivity). reflexivity.
 Qed.
 End Clear.
 End Shapes.
